@@ -5,8 +5,8 @@ Import ListNotations.
 Require Import Nib.C05.Model Nib.C05.Spec.
 Open Scope Z_scope.
 
-(** accounts of a scenario: 0 signer, 1 fee collector, 2 R, 3 X, 4 B, 5 N, 6 Y, 7 B2, 8 C3, 9 D *)
-Definition universe : list nat := [0; 1; 2; 3; 4; 5; 6; 7; 8; 9]%nat.
+(** accounts of a scenario: 0 signer, 1 fee collector, 2 R, 3 X, 4 B, 5 N, 6 Y, 7 B2, 8 C3, 9 D, 10 and 11 second and third signer *)
+Definition universe : list nat := [0; 1; 2; 3; 4; 5; 6; 7; 8; 9; 10; 11]%nat.
 
 Record otx := {
   o_base_fee : Z; o_block_gas : Z;
@@ -15,7 +15,16 @@ Record otx := {
   o_supply_before : Z; o_supply_after : Z
 }.
 
-Definition case : Type := list otx.
+(** one Cosmos tx carrying several MsgEthereumTx *)
+Record obundle := {
+  ob_base_fee : Z; ob_block_gas : Z;
+  ob_msgs : list bmsg; ob_out : boutcome;
+  ob_before : list Z; ob_after : list Z;
+  ob_supply_before : Z; ob_supply_after : Z
+}.
+
+Definition case : Type := list otx * list obundle.
+
 
 Definition env_of (o : otx) : env :=
   {| e_signer := 0; e_collector := 1; e_universe := universe;
@@ -41,11 +50,46 @@ Definition tx_agrees (o : otx) : bool :=
   forallb (fun a => bal b' a =? lookup universe (o_after o) a) universe &&
   (supply b' =? o_supply_after o).
 
-Definition mismatch (c : case) : bool := existsb (fun o => negb (tx_agrees o)) c.
+
 
 Definition meas_of (o : otx) : meas :=
   {| m_env := env_of o; m_tx := o_tx o; m_out := o_out o;
      m_before := bank_of (o_before o) (o_supply_before o);
      m_after := bank_of (o_after o) (o_supply_after o) |}.
 
-Definition violates (c : case) : bool := existsb (fun o => negb (Pb (meas_of o))) c.
+
+
+Definition benv_of (o : obundle) : env :=
+  {| e_signer := 0; e_collector := 1; e_universe := universe;
+     e_base_fee := ob_base_fee o; e_block_gas := ob_block_gas o |}.
+
+Fixpoint outcomes_eqb (a b : list outcome) : bool :=
+  match a, b with
+  | [], [] => true
+  | x :: a', y :: b' => outcome_eqb x y && outcomes_eqb a' b'
+  | _, _ => false
+  end.
+
+Definition boutcome_eqb (a b : boutcome) : bool :=
+  match a, b with
+  | BRejected, BRejected | BMsgErr, BMsgErr => true
+  | BDone x, BDone y => outcomes_eqb x y
+  | _, _ => false
+  end.
+
+Definition bundle_agrees (o : obundle) : bool :=
+  let '(b', out) := deliver_bundle (benv_of o) (bank_of (ob_before o) (ob_supply_before o)) (ob_msgs o) in
+  boutcome_eqb out (ob_out o) &&
+  forallb (fun a => bal b' a =? lookup universe (ob_after o) a) universe &&
+  (supply b' =? ob_supply_after o).
+
+Definition bmeas_of (o : obundle) : bmeas :=
+  {| bm_env := benv_of o; bm_msgs := ob_msgs o; bm_out := ob_out o;
+     bm_before := bank_of (ob_before o) (ob_supply_before o);
+     bm_after := bank_of (ob_after o) (ob_supply_after o) |}.
+
+Definition mismatch (c : case) : bool :=
+  existsb (fun o => negb (tx_agrees o)) (fst c) || existsb (fun o => negb (bundle_agrees o)) (snd c).
+
+Definition violates (c : case) : bool :=
+  existsb (fun o => negb (Pb (meas_of o))) (fst c) || existsb (fun o => negb (PBb (bmeas_of o))) (snd c).
